@@ -272,7 +272,7 @@ def main(tier):
     from .C14 import replay_fixed_point
     collect(ck, outs_i, replay=lambda t, r: (replay_fixed_point(t, r), {"kind": "c14", "replay_module": "jxverif.props.C14", "target": t}))
     for (kind, t, can), o in zip([c for c in CANARIES if c[0] == "gate"] + [c for c in CANARIES if c[0] == "mech"], outs_g[len(gate_args):] + outs_m[len(mech_args):]):
-        ref = o[0] == "ok" and (any(r["status"] == "refuted" for r in o[1]["results"]) or o[1]["error_kind"] == "api")
+        ref = o[0] == "ok" and (any(r["status"] != "proved" for r in o[1]["results"]) or o[1]["error_kind"] == "api")
         ck.canaries.append((f"{can[0]}: {can[2]!r} -> {can[3]!r}", ref))
     ck.trusted = ["jxverif/specs/kinetics.py (published equations, transcribed offline; see provenance caveat)", "jax.numpy primitive models", "z3 + exp axioms"]
     ck.assumptions += [
